@@ -827,6 +827,14 @@ func c08Tasks(tier string) []mc.Task {
 		}
 		cs := c08Case{Kind: "fault", Seqs: seqs, Model: "pdist", Cpus: 1, Bound: 0, FailAt: "dist", FailIdx: 0}
 		ts = append(ts, mc.Task{Name: "fault#manypairs/cpus1", Run: func(c *mc.Ctx) { c08Sched(c, cs, false) }})
+		// the same with one preemption (the producer refills the queue between the worker's receive and its
+		// failure), failing at the first and at a later pair, and with every evaluation failing for 2 workers
+		for _, k := range []int{0, 7} {
+			cs1 := c08Case{Kind: "fault", Seqs: seqs, Model: "pdist", Cpus: 1, Bound: 1, FailAt: "dist", FailIdx: k}
+			ts = append(ts, mc.Task{Name: fmt.Sprintf("fault#manypairs/cpus1/bound1/dist%d", k), Run: func(c *mc.Ctx) { c08Sched(c, cs1, false) }})
+		}
+		cs2 := c08Case{Kind: "fault", Seqs: seqs, Model: "pdist", Cpus: 2, Bound: 1, FailAt: "dist-from", FailIdx: 0}
+		ts = append(ts, mc.Task{Name: "fault#manypairs/cpus2/bound1/distfrom0", Run: func(c *mc.Ctx) { c08Sched(c, cs2, false) }})
 	}
 	// --- relational part
 	const alpha = "ACGT-"
@@ -1018,7 +1026,7 @@ func init() {
 	mc.Register(&mc.Prop{
 		ID:    "C08",
 		Level: "model_checking",
-		Rule: "schedule part: stateless DFS over all interleavings of the real dna.DistMatrix goroutines (main, producer, cpus workers; scheduling points at every go/channel/mutex/WaitGroup operation) with iterative preemption bounds 0,1,2 (quick) / 0..3 (thorough), for 3 sequences x cpus 1..3 x {k2p (with a +Inf pair), jc}, 4 sequences with overlapping ranges, 15 sequences (105 pairs > channel capacity); " +
+		Rule: "schedule part: stateless DFS over all interleavings of the real dna.DistMatrix goroutines (main, producer, cpus workers; scheduling points at every go/channel/mutex/WaitGroup operation) with iterative preemption bounds 0,1,2 (quick) / 0..3 (thorough), for 3 sequences x cpus 1..3 x {k2p (with a +Inf pair), jc}, 4 sequences with overlapping ranges, 15 sequences (105 pairs > channel capacity); 16 sequences (120 pairs) with a failing evaluation and one preemption (the producer blocked on the full queue when the failure comes); " +
 			"function-entry part: 3 sequences, cpus 2 (3 thorough), 5 models, every function entry of goalign (functions of >= 4 statements) an additional scheduling point, preemption bound 1; " +
 			"fault part: the same exploration with a DistModel that fails at each Distance call / each Sequence call in turn, and with one that fails at every Distance call from the k-th on (k=0,1; cpus 2,3; preemption bound 2/3); relational part: all alignments of shape 2x1,2x2,3x1,2x3,3x2 (+2x4,3x3 thorough; 3x3 over {A,C,T,-} for pdist and rawdist) over {A,C,G,T,-} x 7 models x rm-gaps x gap-count modes under every column permutation, replication (concat, weights) k=2,3, unit weights, reverse complement, every row permutation, cpus 1,2,3; the shapes of <= 6 cells also with gamma-distributed rates (alpha 0.5), every multiset of 6 (thorough 7) pair columns over {A/A,C/C,G/G,T/T,A/G,C/T,A/C,G/T} x 5 corrected models x alpha {0.5, 2} (pairs far from saturation, unequal purine / pyrimidine frequencies), the small shapes also with ONE model value serving all calls of a case (as build distboot does) and, for 2x1, 2x2, 3x1, 3x2, in range mode with both ranges = all rows; thread part (GOMAXPROCS following the thread count, as --threads does): all 2x4 (thorough 2x5) alignments over {A,C,B,V} x {f81,tn93,pdist} (thorough also f84, jc), with and without fractional weights, threads = GOMAXPROCS = 1,2,3,4 must give the same bits. " +
 			"distinct_nontrivial counts distinct (case, schedule) executions of the schedule/fault parts plus relational cases whose matrix has a non-zero entry. states/transitions are nodes/edges of the schedule choice trees.",
